@@ -5,11 +5,11 @@ package main
 
 import (
 	"encoding/json"
-	"os/exec"
-	"golang.org/x/tools/go/ssa"
 	"flag"
 	"fmt"
+	"golang.org/x/tools/go/ssa"
 	"os"
+	"os/exec"
 	"path/filepath"
 	"sort"
 	"strconv"
@@ -19,15 +19,17 @@ import (
 )
 
 type PropConfig struct {
-	Functions     []string `json:"functions"`      // canonical keys of functions under contract
-	NotApplicable []string `json:"not_applicable"` // clauses declared N/A (informational, copied to evidence)
-	Assumptions   []string `json:"assumptions"`
-	Bounded       []string `json:"bounded"` // bounded stand-ins: file names under /verif/bounded (Go test sources run through an overlay)
-	Exclude       []string `json:"exclude"` // obligations of the listed functions that belong to another property (not claimed here)
-	Level         string `json:"level"` // evidence level override ("other" for properties decided mainly by bounded stand-ins)
-	Explanation   string `json:"explanation"`
-	Callers       map[string][]string `json:"callers"` // callee -> the only functions allowed to call it (package sweep)
-	AssumedObligations map[string]string `json:"assumed_obligations"` // obligation -> why it is assumed instead of discharged (reported as an assumption, never counted)
+	Functions          []string            `json:"functions"`      // canonical keys of functions under contract
+	NotApplicable      []string            `json:"not_applicable"` // clauses declared N/A (informational, copied to evidence)
+	Assumptions        []string            `json:"assumptions"`
+	Bounded            []string            `json:"bounded"` // bounded stand-ins: file names under /verif/bounded (Go test sources run through an overlay)
+	Exclude            []string            `json:"exclude"` // obligations of the listed functions that belong to another property (not claimed here)
+	Level              string              `json:"level"`   // evidence level override ("other" for properties decided mainly by bounded stand-ins)
+	Explanation        string              `json:"explanation"`
+	Callers            map[string][]string `json:"callers"`             // callee -> the only functions allowed to call it (package sweep)
+	Guards             bool                `json:"guards"`              // lock-guard obligations are part of this property (C20); elsewhere they are not generated into the claim
+	Unstable           []string            `json:"unstable"`            // obligations whose proof depends on solver luck: never admitted to the lock (UNDECIDED, not a violation, when they fail)
+	AssumedObligations map[string]string   `json:"assumed_obligations"` // obligation -> why it is assumed instead of discharged (reported as an assumption, never counted)
 }
 
 type KnownFinding struct {
@@ -93,6 +95,21 @@ func checkMain(args []string) int {
 	}
 	var lock map[string][]string
 	_ = readJSON(filepath.Join(verifDir, "baseline", "obligations.lock"), &lock)
+	_ = readJSON(filepath.Join(verifDir, "baseline", "params.lock"), &baselineParams)
+	_ = readJSON(filepath.Join(verifDir, "baseline", "loops.lock"), &baselineLoops)
+	_ = readJSON(filepath.Join(verifDir, "baseline", "locals.lock"), &baselineLocals)
+	if *updateLock {
+		// the tree IS the baseline: bind by the names and ordinals as written; the recorded shapes of this property's
+		// functions are replaced below
+		for _, key := range pc.Functions {
+			delete(baselineParams, key)
+			delete(baselineLoops, key)
+			delete(baselineLocals, key)
+		}
+	}
+	for _, n := range lock[prop] {
+		lockedNow[n] = true
+	}
 	var known []KnownFinding
 	_ = readJSON(filepath.Join(verifDir, "known_findings.json"), &known)
 
@@ -177,7 +194,7 @@ func checkMain(args []string) int {
 					skip = true
 				}
 			}
-			if skip {
+			if skip || (o.Kind == "guard" && !pc.Guards) {
 				continue
 			}
 			allObls = append(allObls, o)
@@ -207,6 +224,16 @@ func checkMain(args []string) int {
 		}
 		var names []string
 		for _, o := range allObls {
+			unstable := false
+			for _, u := range pc.Unstable {
+				if u == o.Name {
+					unstable = true
+				}
+			}
+			if unstable {
+				fmt.Printf("not admitted to the lock (declared unstable): %s\n", o.Name)
+				continue
+			}
 			if o.Result == "unsat" && o.Ms < int64(timeout)*250 {
 				names = append(names, o.Name)
 			} else if o.Result == "unsat" {
@@ -216,6 +243,32 @@ func checkMain(args []string) int {
 		}
 		sort.Strings(names)
 		lock[prop] = names
+		for _, key := range pc.Functions {
+			if fn := w.funcs[key]; fn != nil {
+				var ps []string
+				for _, p := range fn.Params {
+					ps = append(ps, p.Name())
+				}
+				baselineParams[key] = ps
+			}
+		}
+		for _, key := range pc.Functions {
+			if sigs, ok := currentLoopSigs[key]; ok {
+				baselineLoops[key] = sigs
+			}
+			if fn := w.funcs[key]; fn != nil {
+				baselineLocals[key] = localNames(fn)
+			}
+		}
+		if ldata, err := json.MarshalIndent(baselineLoops, "", " "); err == nil {
+			os.WriteFile(filepath.Join(verifDir, "baseline", "loops.lock"), append(ldata, '\n'), 0o644)
+		}
+		if ldata, err := json.MarshalIndent(baselineLocals, "", " "); err == nil {
+			os.WriteFile(filepath.Join(verifDir, "baseline", "locals.lock"), append(ldata, '\n'), 0o644)
+		}
+		if pdata, err := json.MarshalIndent(baselineParams, "", " "); err == nil {
+			os.WriteFile(filepath.Join(verifDir, "baseline", "params.lock"), append(pdata, '\n'), 0o644)
+		}
 		data, _ := json.MarshalIndent(lock, "", " ")
 		os.MkdirAll(filepath.Join(verifDir, "baseline"), 0o755)
 		os.WriteFile(filepath.Join(verifDir, "baseline", "obligations.lock"), append(data, '\n'), 0o644)
@@ -235,6 +288,7 @@ func checkMain(args []string) int {
 	locked := map[string]bool{}
 	for _, n := range lock[prop] {
 		locked[n] = true
+		lockedNow[n] = true
 	}
 	for _, e := range genErrors {
 		rp := filepath.Join(replayDir, "generation-error.txt")
@@ -269,6 +323,9 @@ func checkMain(args []string) int {
 			// (the n-th index operation, the n-th call of f, a heap variable the body writes): a refactoring that
 			// removes the program point removes the obligation, which is not a violation.
 			if !(strings.Contains(n, "#ensures:") || (strings.Contains(n, "#invariant-") && !strings.Contains(n, "~"))) {
+				continue
+			}
+			if loopDropped(n) {
 				continue
 			}
 			rp := filepath.Join(replayDir, mangle(n)+".txt")
@@ -411,8 +468,14 @@ func writeEvidence(prop, tier string, seed int, recs []oblRecord, abstracted, kn
 	for _, k := range knownHit {
 		knownSet[k] = true
 	}
+	var undecided []string
 	for _, r := range recs {
 		if knownSet[r.Name] {
+			continue
+		}
+		if r.Result != "unsat" && r.Result != "sat" && !lockedNow[r.Name] {
+			// new obligation (not in the baseline lock) that no solver decided: not part of the claim
+			undecided = append(undecided, r.Name+" ("+r.Result+")")
 			continue
 		}
 		total++
@@ -576,17 +639,20 @@ func callersSweep(w *World, pc *PropConfig) []string {
 }
 
 type boundedResult struct {
-	File      string `json:"file"`
-	Label     string `json:"label"`
-	Ok        bool   `json:"completed"`
-	Violation bool   `json:"violation"`
-	Cases     int    `json:"cases"`
-	Bound     string `json:"bound"`
+	File      string  `json:"file"`
+	Label     string  `json:"label"`
+	Ok        bool    `json:"completed"`
+	Violation bool    `json:"violation"`
+	Cases     int     `json:"cases"`
+	Bound     string  `json:"bound"`
 	Seconds   float64 `json:"seconds"`
-	Output    string `json:"-"`
+	Output    string  `json:"-"`
 }
 
 var boundedResults []boundedResult
+
+// lockedNow: obligations of the current property that are in the baseline lock (set by checkMain)
+var lockedNow = map[string]bool{}
 
 func firstLine(out, marker string) string {
 	for _, l := range strings.Split(out, "\n") {
@@ -647,4 +713,21 @@ func runBounded(file string, tier string) boundedResult {
 		br.Ok = strings.Contains(string(out), "\nok") || strings.Contains(string(out), "PASS")
 	}
 	return br
+}
+
+// loopDropped: n is an invariant obligation of a baseline loop that the current function no longer contains.
+func loopDropped(n string) bool {
+	i := strings.Index(n, "#invariant-")
+	if i < 0 {
+		return false
+	}
+	parts := strings.SplitN(n[i+1:], ":", 3)
+	if len(parts) < 2 {
+		return false
+	}
+	ord, err := strconv.Atoi(parts[1])
+	if err != nil {
+		return false
+	}
+	return droppedLoops[n[:i]][ord]
 }
